@@ -572,3 +572,64 @@ func init() {
 			}
 		})
 }
+
+// ---- pools at and above the documented capacity of the metrics collector (1000 backends): health changes of
+// backends that have a metrics entry are still reflected there
+func init() {
+	type c04Large struct {
+		Strategy string `json:"strategy"`
+		N        int    `json:"n_backends"`
+	}
+	vh.AddPart("C04", "large-pool", "sim", vh.Opts{Shards: 6, TimeoutS: 300},
+		func(e *vh.Env) []c04Large {
+			var cs []c04Large
+			for i, n := range []int{999, 1000, 1200} {
+				cs = append(cs, c04Large{allStrategies[i%5], n}, c04Large{allStrategies[(i+3)%5], n})
+			}
+			return cs
+		},
+		func(e *vh.Env, c c04Large, o *vh.Out) {
+			o.Need("large_pool_reports_checked")
+			cfg := baseConfig(c.Strategy, nil)
+			for i := 0; i < c.N; i++ {
+				cfg.Backends = append(cfg.Backends, config.BackendConfig{Name: fmt.Sprintf("n%04d", i), Address: "http://127.0.0.1:9", Weight: 1})
+			}
+			cfg.HealthChecks.Passive = config.PassiveHealthCheckConfig{Enabled: true, UnhealthyThreshold: 2, UnhealthyTimeout: 30}
+			sys, err := startSys(cfg, nil, false)
+			if err != nil {
+				o.Inconcl("startSys: %v", err)
+				return
+			}
+			defer sys.Close()
+			live := sys.LB.VerifBackends()
+			o.Eval(1)
+			o.Distinct(vh.J(c))
+			for _, idx := range []int{0, 499, 998, c.N - 1} {
+				if idx >= len(live) {
+					continue
+				}
+				b := live[idx]
+				sys.LB.MarkBackendUnhealthy(b, 30*time.Second)
+				vh.Settle()
+				infos, _ := listBackends(sys.admin())
+				for _, bi := range infos {
+					if bi.Name == b.Name && bi.Healthy {
+						o.Viol("C04|large-pool|admin-reports-healthy", fmt.Sprintf("%s, %d backends: %s was ejected a moment ago and /v1/backends reports it healthy", c.Strategy, c.N, b.Name), nil)
+						return
+					}
+				}
+				if bs, ok := sys.healthJSON()["backends"].(map[string]any); ok {
+					if ent, ok := bs[b.Name].(map[string]any); ok {
+						if hv, _ := ent["healthy"].(bool); hv {
+							o.Viol("C04|large-pool|metrics-reports-healthy", fmt.Sprintf("%s, %d backends: %s (backend #%d) was ejected a moment ago and the metrics endpoint reports it healthy", c.Strategy, c.N, b.Name, idx), nil)
+							return
+						}
+						o.Obs("large_pool_reports_checked", 1)
+					}
+				}
+			}
+			if c.N == 1000 {
+				o.Sample(map[string]any{"part": "large-pool", "case": c})
+			}
+		})
+}
